@@ -217,6 +217,10 @@ func (p *Proxy) setDest(ctx context.Context, newDestURL *url.URL, onSubmit func(
 
 	if p.destURL.String() == newDestURL.String() {
 		p.logDebugf("changing destination skipped, because it is the same as current")
+		// same destination but possibly another task: shares are credited to the new callback
+		p.onSubmitMutex.Lock()
+		p.onSubmit = onSubmit
+		p.onSubmitMutex.Unlock()
 		return nil
 	}
 
